@@ -10,7 +10,7 @@ From UV.Base Require Import Order Cop Res.
 From UV.Gen Require Import Tables.
 From UV.Py Require Import PyStr.
 From UV.Vers Require Import Model.
-From UV.Schemes Require Import Common Generic LegacyOpenssl Gentoo GentooProofs Debian DebianProofs Semver SemverProofs Gem GemProofs Rpm RpmProofs.
+From UV.Schemes Require Import Common Generic LegacyOpenssl Gentoo GentooProofs Debian DebianProofs Semver SemverProofs Gem GemProofs Rpm RpmProofs Arch ArchProofs.
 Import ListNotations.
 
 (* one of <, ==, > exactly; <= is < or ==; >= is > or ==; != is not ==  -- for any operators derived from one comparison *)
@@ -49,6 +49,9 @@ Proof. intros a b. rewrite gem_ops_spec. split; [reflexivity|apply ops_of_agree]
 Theorem C02_rpm : forall a b, rpm_ops a b = ops_of (rpm_order a b) /\ ops_agree (rpm_ops a b) = true.
 Proof. intros a b. rewrite rpm_ops_spec. split; [reflexivity|apply ops_of_agree]. Qed.
 
+Theorem C02_alpm : forall a b, arch_ops a b = ops_of (arch_cmp a b) /\ ops_agree (arch_ops a b) = true.
+Proof. exact arch_ops_spec. Qed.
+
 Print Assumptions C02_operators_of_a_comparison_agree.
 Print Assumptions C02_single_comparator_constraints.
 Print Assumptions C02_generic.
@@ -58,3 +61,4 @@ Print Assumptions C02_deb.
 Print Assumptions C02_semver_family.
 Print Assumptions C02_gem.
 Print Assumptions C02_rpm.
+Print Assumptions C02_alpm.
